@@ -941,7 +941,7 @@ func TestCheck(t *testing.T) {
 		run.Count("rules", fmt.Sprint(len(c.Rules)))
 		run.Count("history_len", fmt.Sprintf("%02d-%02d", len(c.Ops)/5*5, len(c.Ops)/5*5+4))
 	}
-	if err := run.Finish("random rule sets (1-3 rules over sev/cluster/inst/zone, equal lists incl. labels missing on one side) and histories of Put (fresh, refreshed with varied end times, resolved, no end), time passing (time-outs), inhibitor GC ticks, provider GC, inhibitor restarts, over 3-6 label sets sharing equal-values; after every op Mutes+marker for every label set, cache/index content, MuteStage; non-trivial = some label set muted and some not muted during the history; distinct by full history text"); err != nil {
+	if err := run.Finish("random rule sets (1-3 rules over sev/cluster/inst/zone, equal lists incl. labels missing on one side; one third of the cases: 2-3 equal labels with values that collide under concatenation) and histories of Put (fresh, refreshed with varied end times, resolved, no end), time passing (time-outs), inhibitor GC ticks, provider GC, inhibitor restarts, over 3-6 label sets sharing equal-values; after every op Mutes+marker for every label set, cache/index content, MuteStage; non-trivial = some label set muted and some not muted during the history; distinct by full history text"); err != nil {
 		t.Fatal(err)
 	}
 }
